@@ -17,7 +17,7 @@ RULE = ("Every string up to length N (4 quick, 6 thorough) over {2 narrow, 2 dou
         "order; which line they land on is not judged. distinct = distinct (runs, columns); "
         "non-trivial = at least one character.")
 FLOOR = 2000
-SHARDS = {"thorough": 16}
+SHARDS = {"quick": 4, "thorough": 16}
 ASSUMPTIONS = ["wcwidth (pure Python) and cwcwidth agree on the alphabet used (asserted at start-up)"]
 
 
